@@ -319,6 +319,118 @@ pub fn run(ctx: &Ctx, rep: &mut Report) {
             rep.class(format!("conversation|len{}", n));
         }
     }
+    // replayed deliveries: a pool of 3..5 deliverables (valid messages, valid bodies under an
+    // unsupported type value, payloads with a byte outside the armoring alphabet, too-short ones;
+    // each sent unfragmented, as "1 of 0" or as a group of 2..3 fragments) is delivered 4..10 times
+    // in random order with repetitions, decoding requested every time (a static message that is
+    // rebroadcast unchanged every few minutes, a corrupted group that is repeated): whatever is
+    // decoded follows the six type bits of the payload just delivered, never an earlier delivery
+    for ci in 0..ctx.budget(24_000, 400_000) {
+        if !ctx.mine(ci) {
+            continue;
+        }
+        struct Deliverable {
+            lines: Vec<Vec<u8>>,
+            t: u8,
+            kind: &'static str,
+        }
+        let npool = r.usize(3, 5);
+        let mut pool: Vec<Deliverable> = Vec::new();
+        for di in 0..npool {
+            let b = r.pick(gen::BRANCHES);
+            if b.len > 1008 {
+                continue;
+            }
+            let mut bits = gen::gen_message(b, &mut r);
+            let kind = ["valid", "valid", "unsupported", "bad-armor", "bad-armor", "short"][r.usize(0, 5)];
+            if kind == "unsupported" {
+                bits.put(0, 6, *r.pick(&[0u64, 22, 28, 31, 32, 48, 63]));
+            }
+            let (mut chars, mut fill) = bits.to_armor();
+            if kind == "short" {
+                chars.truncate(r.usize(1, 6));
+                fill = 0;
+            }
+            if kind == "bad-armor" && chars.len() > 2 {
+                let at = r.usize(1, chars.len() - 1);
+                chars[at] = *r.pick(&[b'x', b'X', b'~', b' ', b'/', b'Z', 0x80, b'_']);
+            }
+            if mon::is_noalloc() && chars.len() > 380 {
+                continue;
+            }
+            let t = crate::armor::ALPHABET.iter().position(|c| *c == chars[0]).unwrap_or(0) as u8;
+            let frags = if chars.len() < 4 { 1 } else { *r.pick(&[0usize, 1, 2, 2, 2, 3]) };
+            let id = Some(((ci as usize + di) % 10) as u8);
+            let lines = match frags {
+                0 => vec![nmea_ref::mk(0, 1, None, &chars, fill)],
+                1 => vec![nmea_ref::mk(1, 1, None, &chars, fill)],
+                n => {
+                    let mut cuts: Vec<usize> = (0..n - 1).map(|_| r.usize(1, chars.len() - 1)).collect();
+                    cuts.sort();
+                    cuts.dedup();
+                    let total = cuts.len() + 1;
+                    let mut out = Vec::new();
+                    let mut from = 0;
+                    for (k, to) in cuts.iter().cloned().chain(std::iter::once(chars.len())).enumerate() {
+                        out.push(nmea_ref::mk(total as u8, (k + 1) as u8, id, &chars[from..to], if k + 1 == total { fill } else { 0 }));
+                        from = to;
+                    }
+                    out
+                }
+            };
+            pool.push(Deliverable { lines, t, kind });
+        }
+        if pool.is_empty() {
+            continue;
+        }
+        let mut p = Parser::new();
+        let mut hist: Vec<(Vec<u8>, bool)> = Vec::new();
+        let mut prev = 0usize;
+        let n = r.usize(4, 10);
+        'deliveries: for di in 0..n {
+            // two in five deliveries repeat the previous one
+            let pick = if di > 0 && r.usize(0, 4) < 2 { prev } else { r.usize(0, pool.len() - 1) };
+            let repeat = di > 0 && pick == prev;
+            prev = pick;
+            let d = &pool[pick];
+            for l in &d.lines {
+                hist.push((l.clone(), true));
+                rep.eval();
+                match p.parse(l, true) {
+                    Call::Panic(pi) => {
+                        rep.violation(PID, format!("panic@{}", pi.loc), pi.msg.clone(), || mon::replay_history(&hist, "replayed-deliveries"));
+                        break 'deliveries;
+                    }
+                    Call::Done(Outcome::Complete(s)) => {
+                        if let Some(m) = s.message.as_ref() {
+                            let want = variant_of(d.t);
+                            if want != Some(m.variant) {
+                                rep.violation(
+                                    PID,
+                                    match want {
+                                        None => format!("unsupported-type-{}-decoded", d.t),
+                                        Some(_) => format!("history-type-{}-wrong-variant", d.t),
+                                    },
+                                    format!("delivery #{} of a history of replayed deliveries ({} payload announcing type {}) was decoded as {}", di + 1, d.kind, d.t, m.variant),
+                                    || mon::replay_history(&hist, "replayed-deliveries"),
+                                );
+                                break 'deliveries;
+                            }
+                            if m.get("message_type", 255) != Some(&Val::U(d.t as u64)) {
+                                rep.violation(PID, format!("type-{}-wrong-type-field", d.t), format!("message_type field {:?} for type bits {} in a history of replayed deliveries", m.get("message_type", 255), d.t), || mon::replay_history(&hist, "replayed-deliveries"));
+                                break 'deliveries;
+                            }
+                            rep.count("replayed_deliveries_decoded");
+                        }
+                    }
+                    Call::Done(_) => {}
+                }
+            }
+            if ci % 64 == 0 {
+                rep.class(format!("replayed|{}|{}-lines|{}", d.kind, d.lines.len(), if repeat { "repeat" } else { "other" }));
+            }
+        }
+    }
     // payloads of 11 000 .. 350 000 characters (1.4 million in the thorough tier) under every type
     // value (std / alloc only: the no-allocator build cannot hold them): the variant is still
     // decided by the first six bits. The lengths lie beyond 2^16 bits, 2^16 bytes, 2^16 groups of
